@@ -47,6 +47,10 @@ func profileFor(prop string) Profile {
 		p.Ops = []string{"before", "after", "before", "after", "in"}
 		p.PDateAttr = 0.7
 		p.MaxRules, p.MaxClauses, p.PSegmentOp, p.PPrereq, p.PTargets, p.PCtxTargets, p.PRollout, p.POff = 2, 2, 0.03, 0, 0.02, 0.02, 0.05, 0.02
+	case "C20":
+		// value order inside equality sets and key order inside target lists are two of the perturbation families
+		p.Ops = append(append([]string{}, allOps...), "in", "in", "in")
+		p.PTargets, p.PCtxTargets, p.PZeroAge = 0.4, 0.3, 0.15
 	case "C14":
 		p.PDocNoise = 0.1
 		// what the preprocessor touches: equality sets, regex / date / semver operands, target and segment key lists
